@@ -325,8 +325,9 @@ func runC14(c *fw.Ctx) {
 
 func init() {
 	fw.Register(&fw.Prop{
-		ID:    "C14",
-		Level: "exploration",
+		ID:           "C14",
+		EvalCounters: []string{"nodes_swept"},
+		Level:        "exploration",
 		Rule: "workloads: (a) direct insert/delete histories with version bumps on memory / layered / persistent / layered-over-persistent stores, (b) multi-round block histories saved to the persistent store (same generator as C04, every 8th with a fat round of several hundred changed nodes in one save); values are biased to separator bytes " +
 			"(':', '::::', leading/trailing ':', 0x00, 200-byte binary, ':'+32 random bytes, hex-looking strings). Every 8 operations and at the end, every node of every store level involved is swept: stored key == GetHashBytes() == sha3(LE64(origin)‖body) recomputed by the harness' own parser from the stored encoding; " +
 			"CreateNode(enc) has the same hash and re-encodes to the same bytes; for a quarter of the nodes the version mark alone is advanced (origin != version) and the round trip repeated (fields preserved, hash unchanged, stored layout respected); after each direct history the state is synced with MergeDB from a donor store in which one node is planted under another node's key, and the target store is swept; the trie root re-computes bottom-up from stored encodings and reads the model content (for every saved root in (b)). distinct non-trivial = distinct stored encodings swept",
